@@ -584,7 +584,7 @@ def r11_6(ctx, m):
             order = list(facts)
             if p.term in ("exit", "raise") and facts.get("alive_any") is False and "exit_all_zero" in order and order.index("exit_all_zero") < order.index("alive_any"):
                 bad = (p, "the exit codes are read before it is established that no worker is alive: a worker that is still running then (exit code None) and finishes cleanly before the liveness test makes a healthy run abort")
-            if facts.get("alive_any") is True and p.term != "continue":
+            if facts.get("alive_any") is True and p.term not in ("continue", "fall"):  # (falling off the loop body goes back to the read as well; a stale item used on the way is R11.1's)
                 bad = (p, f"a worker is still alive but the path ends in '{p.term}' instead of going back to the read")
         ctx.check(bad is None, "R11.6", L.where(), "after a timed-out read the parent keeps waiting while any worker is alive and gives up only when none is", key_of(pf, f"wait-while-alive:{norm(L.node.test)}:{bad[1][:40] if bad else ''}"), handler_paths=n, **({"path": bad[0].show(), "why": bad[1]} if bad else {}))
 
